@@ -560,8 +560,8 @@ def enumerate_extra(ctx, shard, nshards):
 
 def campaigns(ctx):
     return [
-        Campaign('entry', entry_spec(), check_entry, 2500, 40000),
-        Campaign('matrix', matrix_spec(), check_matrix, 1200, 15000),
+        Campaign('entry', entry_spec(), check_entry, 2500, 20000),
+        Campaign('matrix', matrix_spec(), check_matrix, 1200, 8000),
     ]
 
 
